@@ -291,9 +291,17 @@ func classifyTaintUse(c *Ctx, p *Prov, f *ssa.Function, i ssa.Instruction, op ss
 	nonSensitiveString := func() (string, bool) {
 		// a '$' field path, or a string in a FieldName / Namespace position
 		root := rootOf(op)
+		// a one-element path literal []string{s}: the subject is s
+		roots := map[ssa.Value]bool{root: true, op: true}
+		if isStringSliceT(op.Type()) {
+			for _, e := range varargValues(op) {
+				roots[e] = true
+				roots[rootOf(e)] = true
+			}
+		}
 		for _, a := range p.atomsAt(i.Block()) {
 			switch {
-			case a.Kind == "dollar" && a.Pol && (rootOf(a.X) == root || a.X == op):
+			case a.Kind == "dollar" && a.Pol && (roots[rootOf(a.X)] || roots[a.X]):
 				return "dollar", true
 			case a.Kind == "tbl" && a.Pol && (a.Name == "FieldName" || a.Name == "Namespace"):
 				return "tbl==" + a.Name, true
